@@ -137,7 +137,8 @@ def run(sess: Session):
     addchecks.run_row_images(sess, PROP)
     querychecks.run_result_checks(sess, PROP)
     coreflows.run_flows(sess, PROP)
-    for part, fn in (('converters', converter_obligations), ('lexidmap', build_lexid_map_obligations)):
+    for part, fn in (('converters', converter_obligations), ('lexidmap', build_lexid_map_obligations),
+                     ('no-raise', add_no_raise_obligations)):
         try:
             for ob in fn():
                 sess.check(ob)
@@ -145,3 +146,64 @@ def run(sess: Session):
             sess.unsupported(f'C01:{part}', str(exc))
     bounded_checks(sess)
     sess.note('composition of 1-3 into the per-observable statements of the property is hand-argued (DESIGN §5 C01.4)')
+
+
+def add_no_raise_obligations() -> list:
+    """A valid document (a resource in the loader's normal form: every element is an instance of one of its
+    TypedDict alternatives) never makes the real _insert_* code raise KeyError / TypeError / IndexError /
+    AttributeError: every subscript of an optional key is guarded."""
+    from contracts import lmfrt, addmodel
+    from contracts.common import lit_axioms
+    from vc.pyvc.dbmodel import World
+    from vc.pyvc.values import SList, SRec, SOptRec
+    from wn import lmf
+    world = World()
+    res, outs = addmodel.explore_add(world)
+    obs = []
+    name = 'wn._add._add_lexical_resource'
+    cm = dict(prop=PROP, functions=(name,), source=source_span(A._add_lexical_resource), assumptions_used=())
+    for n, o in enumerate(outs):
+        if o.kind == 'raise' and o.exc.exc_type in (KeyError, TypeError, IndexError, AttributeError):
+            obs.append(Obligation(f'{name}:no-raise:p{n}', kind='safety', assumptions=list(o.pc) + lit_axioms(),
+                                  goal=z3.BoolVal(False),
+                                  detail=f'{o.exc.exc_type.__name__} {o.exc.args} on a valid resource', **cm))
+            continue
+        for k, (exc_type, assumptions, node, what, *rest) in enumerate(o.may_raise):
+            if exc_type not in (KeyError, TypeError, IndexError, AttributeError):
+                continue
+            if exc_type is TypeError and 'NoneType' in str(what) and 'not subscriptable' in str(what):
+                # cur.execute(base lexicon look-up).fetchone()[0] for a lexicon extension: the row exists because
+                # _precheck skips extensions whose base is not installed (obligation of C07, not repeated here)
+                continue
+            binders = rest[0] if rest else []
+            nf = lmfrt.NF()
+            root = lmfrt.nf_record([lmf.LexicalResource], 'res', nf)
+            # normal-form facts of the elements the failing statement is about (the binders' list elements)
+            for b in binders:
+                key = getattr(b, 'key', None) or ()
+                if len(key) < 2 or key[0] != 'list' or not str(key[1]).startswith('res.'):
+                    continue
+                parts = str(key[1]).split('.')[1:]
+                cur = root
+                ok = True
+                used = [x for x in binders if (getattr(x, 'key', None) or ('', ''))[0] == 'list']
+                for depth, part in enumerate(parts):
+                    slot = cur.slots.get(part) if isinstance(cur, SRec) else None
+                    if slot is None or not isinstance(slot.value, SList):
+                        ok = False
+                        break
+                    want = 'res.' + '.'.join(parts[:depth + 1])
+                    bb = [x for x in used if x.key[1] == want]
+                    if not bb:
+                        ok = False
+                        break
+                    cur = slot.value.at(bb[0].var)
+                if not ok:
+                    continue
+            line = getattr(node, 'lineno', '?')
+            obs.append(Obligation(f'{name}:no-raise#{k}', kind='safety',
+                                  assumptions=list(assumptions[:-1]) + list(nf.facts) + lit_axioms(),
+                                  goal=z3.Not(assumptions[-1]),
+                                  detail=f'{exc_type.__name__} ({what}) at line {line} of the enclosing function: a '
+                                         f'valid document must not make the insert code raise', **cm))
+    return obs
